@@ -18,6 +18,7 @@ const (
 	reqWork                              /* goroutine is currently working on it */
 	reqResponded                         /* response is already produced */
 	reqSaved                             /* no response was produced after the request is worked on */
+	reqNoreply                           /* the request was flushed when it was responded: its response is dropped */
 )
 
 var Eunknownfid error = &Error{"unknown fid", EINVAL}
@@ -329,8 +330,18 @@ func (req *SrvReq) Process() {
 func (req *SrvReq) PostProcess() {
 	srv := req.Conn.Srv
 
+	/* a flushed request has no response: whatever its Rc holds (the previous
+	 * use of a recycled buffer, or an answer the file server produced while
+	 * the request was being cancelled) is not sent and must not be acted on */
+	req.Lock()
+	tctype := req.Tc.Type
+	if req.status&reqNoreply != 0 {
+		tctype = 0
+	}
+	req.Unlock()
+
 	/* call the post-handlers (if needed) */
-	switch req.Tc.Type {
+	switch tctype {
 	case Tauth:
 		srv.authPost(req)
 
@@ -385,6 +396,9 @@ func (req *SrvReq) Respond() {
 	status := req.status
 	req.status |= reqResponded
 	req.status &= ^reqWork
+	if (status&reqResponded) == 0 && (status&reqFlush) != 0 {
+		req.status |= reqNoreply
+	}
 	req.Unlock()
 
 	if (status & reqResponded) != 0 {
